@@ -69,11 +69,17 @@ func (s SessionCrypter) Decrypt(rand io.Reader, r io.Reader) ([]byte, error) {
 	var enc0 cose.Encrypt0[cbor.RawBytes, []byte]
 	switch tag.Num {
 	case cose.Encrypt0TagNum:
+		if s.Cipher.MacAlg != 0 {
+			return nil, fmt.Errorf("cipher suite requires a COSE_Mac0 around the COSE_Encrypt0")
+		}
 		if err := cbor.Unmarshal([]byte(tag.Val), &enc0); err != nil {
 			return nil, fmt.Errorf("error decoding COSE_Encrypt0: %w", err)
 		}
 
 	case cose.Mac0TagNum:
+		if s.Cipher.MacAlg == 0 {
+			return nil, fmt.Errorf("cipher suite does not use a COSE_Mac0")
+		}
 		var mac0 cose.Mac0[cose.Encrypt0[cbor.RawBytes, []byte], []byte]
 		if err := cbor.Unmarshal([]byte(tag.Val), &mac0); err != nil {
 			return nil, fmt.Errorf("error decoding COSE_Mac0: %w", err)
